@@ -276,7 +276,7 @@ class Sym:
         return res
 
     def inv(s):
-        c0 = z3.simplify(s.c0)
+        c0 = canon(s.c0)
         if is_val(c0):
             if val(c0) == 0:
                 raise ZeroDivisionError('division by a series with zero constant term')
@@ -320,7 +320,7 @@ class Sym:
             return NotImplemented
 
     def sqrt(s):
-        c0 = z3.simplify(s.c0)
+        c0 = canon(s.c0)
         if is_val(c0) and val(c0) == 0:
             if s.nil().co:
                 raise ArithmeticError('sqrt of an infinitesimal')
@@ -532,6 +532,28 @@ class Sym:
         return 'Sym(' + ', '.join('%s:%s' % (k, z3.simplify(v)) for k, v in sorted(s.co.items())) + ')'
 
 
+def canon(t, limit=400):
+    """canonical form used as memo key: sum-of-monomials normal form when the term is small"""
+    t = z3.simplify(t)
+    if _size(t, limit) < limit:
+        t = z3.simplify(t, som=True)
+    return t
+
+
+def _size(t, limit):
+    n = 0
+    stack = [t]
+    seen = set()
+    while stack and n < limit:
+        u = stack.pop()
+        if u.get_id() in seen:
+            continue
+        seen.add(u.get_id())
+        n += 1
+        stack += u.children()
+    return n
+
+
 def _mentions(t, v):
     if t.get_id() == v.get_id():
         return True
@@ -588,33 +610,80 @@ def deg_domain():
 # ------------------------------------------------------------------------------------------
 # atan2 with angle recovery
 # ------------------------------------------------------------------------------------------
+def _vars_of(t, acc=None, seen=None):
+    acc = set() if acc is None else acc
+    seen = set() if seen is None else seen
+    stack = [t]
+    while stack:
+        u = stack.pop()
+        i = u.get_id()
+        if i in seen:
+            continue
+        seen.add(i)
+        if z3.is_const(u) and u.decl().kind() == z3.Z3_OP_UNINTERPRETED:
+            acc.add(str(u))
+        else:
+            stack += u.children()
+    return acc
+
+
+def cone(terms, constraints):
+    """constraints transitively sharing variables with `terms` (cone of influence)"""
+    vs = set()
+    for t in terms:
+        _vars_of(t, vs)
+    cv = [(c, _vars_of(c)) for c in constraints]
+    picked = [False] * len(cv)
+    changed = True
+    while changed:
+        changed = False
+        for k, (c, v) in enumerate(cv):
+            if not picked[k] and v & vs:
+                picked[k] = True
+                vs |= v
+                changed = True
+    return [c for k, (c, v) in enumerate(cv) if picked[k]]
+
+
 def _match_angle(y0, x0, timeout=3000):
     """find a known angle whose (sin,cos) is a positive multiple of (y0,x0)"""
     if is0(z3.simplify(y0)) and is0(z3.simplify(x0)):
         return None
+    ex = paths.CUR
+    pc = list(ex.pc) if ex is not None and getattr(ex, 'active', False) else []
     for (a, b, arg) in list(C.trig.values()):
-        s = z3.Solver()
-        s.set('timeout', timeout)
-        s.add(C.cons)
-        s.add(C.dom)
-        s.add(z3.Or(y0 * b - x0 * a != 0, x0 * b + y0 * a <= 0))
-        if s.check() == z3.unsat:
-            return arg
+        cross = z3.simplify(y0 * b - x0 * a, som=True)
+        syntactic = is0(cross)
+        if not syntactic and len(C.cons) > 40:
+            continue            # large contexts: only syntactic parallelism is tried
+        q = [x0 * b + y0 * a <= 0] if syntactic else [z3.Or(cross != 0, x0 * b + y0 * a <= 0)]
+        allc = C.cons + C.dom + pc
+        qv = set()
+        for t in q:
+            _vars_of(t, qv)
+        direct = [c for c in allc if _vars_of(c) <= qv | {'deg'}]
+        for cs in (direct, cone(q, allc)):
+            s = z3.Solver()
+            s.set('timeout', timeout)
+            s.add(cs)
+            s.add(q)
+            if s.check() == z3.unsat:
+                return arg
     return None
 
 
-def atan2(y, x):
+def atan2(y, x, match=True):
     y = J(y)
     x = J(x)
-    y0, x0 = y.c0, x.c0
-    key = ('atan2', z3.simplify(y0).get_id(), z3.simplify(x0).get_id())
+    y0, x0 = canon(y.c0), canon(x.c0)
+    key = ('atan2', y0.get_id(), x0.get_id())
     if key in C.memo:
         ang0 = C.memo[key][0]
     else:
         if is0(z3.simplify(y0)) and is_val(z3.simplify(x0)) and val(z3.simplify(x0)) > 0:
             ang0 = ZERO
         else:
-            ang0 = _match_angle(y0, x0)
+            ang0 = _match_angle(y0, x0) if match else None
             if ang0 is None:
                 al = C.fresh('ang')
                 rho = Sym({C.zero: x0 * x0 + y0 * y0}).sqrt().c0
@@ -623,8 +692,8 @@ def atan2(y, x):
                 C.cons += [a * a + b * b == 1, a * rho == y0, b * rho == x0, al > -180 * DEG, al <= 180 * DEG]
                 C.trig[al.get_id()] = (a, b, al)
                 C.defs[str(al)] = ('atan2', y0, x0)
-                C.defs[str(a)] = ('sin', al)
-                C.defs[str(b)] = ('cos', al)
+                C.defs[str(a)] = ('a2sin', y0, x0)
+                C.defs[str(b)] = ('a2cos', y0, x0)
                 C.keep += [y0, x0, al]
                 ang0 = al
         C.memo[key] = (ang0, y0, x0)
@@ -650,12 +719,12 @@ def atan2(y, x):
 
 def arcsin(x):
     x = J(x)
-    return atan2(x, (1 - x * x).sqrt())
+    return atan2(x, (1 - x * x).sqrt(), match=False)
 
 
 def arccos(x):
     x = J(x)
-    return atan2((1 - x * x).sqrt(), x)
+    return atan2((1 - x * x).sqrt(), x, match=False)
 
 
 # ------------------------------------------------------------------------------------------
@@ -923,6 +992,10 @@ class Evaluator:
             v = 1.0 / self.ev(d[1])
         elif kind == 'atan2':
             v = math.atan2(self.ev(d[1]), self.ev(d[2]))
+        elif kind == 'a2sin':
+            v = self.ev(d[1]) / math.hypot(self.ev(d[1]), self.ev(d[2]))
+        elif kind == 'a2cos':
+            v = self.ev(d[2]) / math.hypot(self.ev(d[1]), self.ev(d[2]))
         elif kind == 'mod':
             v = math.fmod(self.ev(d[1]), d[2])
             if v < 0:
@@ -965,6 +1038,37 @@ class Evaluator:
                 raise NotImplementedError('evaluator: %s' % t.decl().name())
         self.cache[i] = r
         return r
+
+    def holds(self, c, slack=0.0):
+        """truth value of a z3 Bool built from comparisons of arithmetic terms"""
+        k = c.decl().kind()
+        ch = c.children()
+        if z3.is_true(c):
+            return True
+        if z3.is_false(c):
+            return False
+        if k == z3.Z3_OP_AND:
+            return all(self.holds(x, slack) for x in ch)
+        if k == z3.Z3_OP_OR:
+            return any(self.holds(x, slack) for x in ch)
+        if k == z3.Z3_OP_NOT:
+            return not self.holds(ch[0], -slack)
+        if k == z3.Z3_OP_IMPLIES:
+            return (not self.holds(ch[0], -slack)) or self.holds(ch[1], slack)
+        a, b = self.ev(ch[0]), self.ev(ch[1])
+        if k == z3.Z3_OP_LE:
+            return a <= b + slack
+        if k == z3.Z3_OP_LT:
+            return a < b + slack
+        if k == z3.Z3_OP_GE:
+            return a >= b - slack
+        if k == z3.Z3_OP_GT:
+            return a > b - slack
+        if k == z3.Z3_OP_EQ:
+            return abs(a - b) <= abs(slack)
+        if k == z3.Z3_OP_DISTINCT:
+            return a != b
+        raise NotImplementedError('holds: %s' % c.decl().name())
 
     def sym(self, s, *k):
         """value of coefficient k (default: constant term) of a Sym / number"""
